@@ -7,7 +7,7 @@ LEAN_MODULES = ["MesaModel.Props.C02"]
 THEOREMS = ["Mesa.Agents." + t for t in (
     "C02_registry_exact_all_histories", "C02_by_type_exact_all_histories", "C02_creation_order_unless_reordered",
     "C02_unique_ids_all_histories", "C02_ids_never_change", "C02_remove_atomic_and_idempotent",
-    "C02_other_models_untouched", "C02_sets_nodup_all_histories")]
+    "C02_other_models_untouched", "C02_create_agents_splits_arguments", "C02_sets_nodup_all_histories")]
 COUNTS = {"quick": 1000, "thorough": 150000}
 TRUSTED = [
     "CPython dict / WeakKeyDictionary keep insertion order; deleting a key keeps the order of the others (the model uses lists)",
@@ -18,7 +18,8 @@ TRUSTED = [
 ASSUMPTIONS = ["the program changes model.agents only by in-place shuffle/sort (the property's 'explicitly reordered in place'); "
                "select(inplace=True)/add/discard on the registry's own sets are outside the quantifier"]
 RULE = ("random histories over 1-3 coexisting models and a 4-class hierarchy (T0<-T1<-T3, T2): constructor and create_agents "
-        "(scalar / list / tuple arguments, n=0..4), remove (also twice, also of held agents), remove_all_agents, in-place "
+        "(n=0..4; one or two arguments, positional or keyword, each a single object or a list / tuple / ndarray of length n or of another "
+        "length), the rejected assignment model.agents = [...], remove (also twice, also of held agents), remove_all_agents, in-place "
         "shuffle/sort of model.agents and by-type sets, activations whose callbacks remove and create agents in any model; "
         "full registry dump after every op; non-trivial = at least one removal and two creations took effect; distinct = "
         "distinct op-line sequences (sha1)")
